@@ -13,36 +13,66 @@ impl<K, V, C> SplayTree<K, V, C>
 where
     C: Fn(&K, &K) -> Ordering,
 {
-    pub fn new(comparator: C) -> SplayTree<K, V, C> {
+    pub fn new(comparator: C) -> /*@ (res: @*/ SplayTree<K, V, C> /*@ ) @*/
+    //@ ensures res.view() == Seq::<(K, V)>::empty(), res.count() == 0, res.cmp() == comparator,
+    //@         cmp_ok(comparator) ==> res.wf(),
+    {
         SplayTree {
             comparator,
             root: None,
             size: 0,
         }
     }
-    pub fn len(&self) -> usize {
+    pub fn len(&self) -> /*@ (res: @*/ usize /*@ ) @*/
+    //@ ensures res == self.count(),
+    {
         self.size
     }
 
-    pub fn is_empty(&self) -> bool {
+    pub fn is_empty(&self) -> /*@ (res: @*/ bool /*@ ) @*/
+    //@ ensures res == (self.count() == 0),
+    {
         self.len() == 0
     }
 
-    pub fn clear(&mut self) {
+    pub fn clear(&mut self)
+    //@ ensures final(self).view() == Seq::<(K, V)>::empty(), final(self).count() == 0,
+    //@         final(self).cmp() == old(self).cmp(),
+    //@         cmp_ok(old(self).cmp()) ==> final(self).wf(),
+    {
         (&mut self.root).take();
         self.size = 0;
     }
 
-    pub fn contains(&mut self, key: &K) -> bool {
+    pub fn contains(&mut self, key: &K) -> /*@ (res: @*/ bool /*@ ) @*/
+    //@ requires old(self).wf(),
+    //@ ensures
+    //@     final(self).view() == old(self).view(), final(self).count() == old(self).count(),
+    //@     final(self).cmp() == old(self).cmp(),
+    //@     res == (exists|i: int| #[trigger] eq_at(old(self).cmp(), old(self).view(), *key, i)),
+    {
         self.find_key(key).is_some()
     }
 
-    pub fn get(&mut self, key: &K) -> Option<&V> {
+    pub fn get(&mut self, key: &K) -> /*@ (res: @*/ Option<&V> /*@ ) @*/
+    //@ requires old(self).wf(),
+    //@ ensures
+    //@     final(self).view() == old(self).view(), final(self).count() == old(self).count(),
+    //@     final(self).cmp() == old(self).cmp(),
+    //@     match res {
+    //@         Some(v) => exists|i: int| #[trigger] eq_at(old(self).cmp(), old(self).view(), *key, i) && *v == old(self).view()[i].1,
+    //@         None => no_eq(old(self).cmp(), old(self).view(), *key),
+    //@     },
+    {
         // Splay trees are self-modifying, which is the cause of this ugly mess
         match (&mut self.root) {
             Some(ref mut root) => {
+                //@ let ghost c = self.comparator;
+                //@ let ghost s = nseq(**root);
                 splay(key, root, &self.comparator);
+                //@ proof { lemma_root_lookup(c, **root, *key); }
                 if (self.comparator)(key, &root.key) == Ordering::Equal {
+                    //@ proof { assert(eq_at(c, s, *key, inorder(root.left).len() as int)); }
                     Some(&root.value)
                 } else {
                     None
@@ -53,12 +83,25 @@ where
     }
 
     /// Return a mutable reference to the value corresponding to the key
-    pub fn get_mut(&mut self, key: &K) -> Option<&mut V> {
+    pub fn get_mut(&mut self, key: &K) -> /*@ (res: @*/ Option<&mut V> /*@ ) @*/
+    //@ requires old(self).wf(),
+    //@ ensures
+    //@     final(self).count() == old(self).count(), final(self).cmp() == old(self).cmp(),
+    //@     match res {
+    //@         Some(v) => exists|i: int| #[trigger] eq_at(old(self).cmp(), old(self).view(), *key, i) && *v == old(self).view()[i].1
+    //@                     && final(self).view() == old(self).view().update(i, (old(self).view()[i].0, *final(v))),
+    //@         None => no_eq(old(self).cmp(), old(self).view(), *key) && final(self).view() == old(self).view(),
+    //@     },
+    {
         // Splay trees are self-modifying, which is the cause of this ugly mess
         match (&mut self.root) {
             Some(ref mut root) => {
+                //@ let ghost c = self.comparator;
+                //@ let ghost s = nseq(**root);
                 splay(key, root, &self.comparator);
+                //@ proof { lemma_root_lookup(c, **root, *key); }
                 if (self.comparator)(key, &root.key) == Ordering::Equal {
+                    //@ proof { assert(eq_at(c, s, *key, inorder(root.left).len() as int)); }
                     Some(&mut root.value)
                 } else {
                     None
@@ -68,12 +111,25 @@ where
         }
     }
 
-    pub fn find_key(&mut self, key: &K) -> Option<&K> {
+    pub fn find_key(&mut self, key: &K) -> /*@ (res: @*/ Option<&K> /*@ ) @*/
+    //@ requires old(self).wf(),
+    //@ ensures
+    //@     final(self).view() == old(self).view(), final(self).count() == old(self).count(),
+    //@     final(self).cmp() == old(self).cmp(),
+    //@     match res {
+    //@         Some(k) => exists|i: int| #[trigger] eq_at(old(self).cmp(), old(self).view(), *key, i) && *k == old(self).view()[i].0,
+    //@         None => no_eq(old(self).cmp(), old(self).view(), *key),
+    //@     },
+    {
         // Splay trees are self-modifying, which is the cause of this ugly mess
         match (&mut self.root) {
             Some(ref mut root) => {
+                //@ let ghost c = self.comparator;
+                //@ let ghost s = nseq(**root);
                 splay(key, root, &self.comparator);
+                //@ proof { lemma_root_lookup(c, **root, *key); }
                 if (self.comparator)(key, &root.key) == Ordering::Equal {
+                    //@ proof { assert(eq_at(c, s, *key, inorder(root.left).len() as int)); }
                     Some(&root.key)
                 } else {
                     None
@@ -83,7 +139,18 @@ where
         }
     }
 
-    pub fn next(&mut self, key: &K) -> Option<(&K, &V)> {
+    pub fn next(&mut self, key: &K) -> /*@ (res: @*/ Option<(&K, &V)> /*@ ) @*/
+    //@ requires old(self).wf(),
+    //@ ensures
+    //@     final(self).view() == old(self).view(), final(self).count() == old(self).count(),
+    //@     final(self).cmp() == old(self).cmp(),
+    //@     match res {
+    //@         Some(kv) => exists|i: int| #[trigger] succ_at(old(self).cmp(), old(self).view(), *key, i) && old(self).view()[i] == (*kv.0, *kv.1),
+    //@         None => no_succ(old(self).cmp(), old(self).view(), *key),
+    //@     },
+    {
+        //@ let ghost c = self.comparator;
+        //@ let ghost s = inorder(self.root);
         // Splay trees are self-modifying, which is the cause of this ugly mess
         let mut node: &Node<K, V> = match (&mut self.root) {
             Some(ref mut root) => {
@@ -94,22 +161,84 @@ where
         };
 
         let mut successor: Option<(&K, &V)> = None;
+        //@ let ghost mut pre: Seq<(K, V)> = Seq::empty();
+        //@ let ghost mut post: Seq<(K, V)> = Seq::empty();
+        //@ proof { assert(s =~= pre + nseq(*node) + post); }
 
-        loop {
+        loop
+            //@ invariant_except_break
+            //@     match successor { Some(kv) => post.len() > 0 && post[0] == (*kv.0, *kv.1), None => post.len() == 0 },
+            //@ invariant
+            //@     cmp_ok(c), c == self.comparator, sorted(c, s),
+            //@     s == pre + nseq(*node) + post,
+            //@     no_succ(c, pre, *key), all_gt(c, post, *key),
+            //@ ensures
+            //@     ord(c, *key, node.key) == Ordering::Less ==> node.left.is_none() && successor == Some((&node.key, &node.value)),
+            //@     ord(c, *key, node.key) != Ordering::Less ==> node.right.is_none()
+            //@         && match successor { Some(kv) => post.len() > 0 && post[0] == (*kv.0, *kv.1), None => post.len() == 0 },
+            //@ decreases nseq(*node).len()
+        {
+            //@ proof { lemma_sorted_sub(c, pre, nseq(*node), post); }
             match (self.comparator)(key, &node.key) {
                 Ordering::Less => {
                     successor = Some((&node.key, &node.value));
+                    //@ proof {
+                    //@     if node.left.is_some() {
+                    //@         let m = seq![(node.key, node.value)] + inorder(node.right);
+                    //@         assert(nseq(*node) =~= inorder(node.left) + m);
+                    //@         lemma_sorted_2(c, inorder(node.left), m);
+                    //@         lemma_all_gt_from_head(c, m, *key);
+                    //@         lemma_all_cat(c, m, post, *key);
+                    //@         assert(s =~= pre + inorder(node.left) + (m + post));
+                    //@         assert(inorder(node.left) =~= nseq(*node.left.unwrap()));
+                    //@         post = m + post;
+                    //@     }
+                    //@ }
                     match node.left {
                         Some(ref left) => node = left,
                         None => break,
                     }
                 }
-                Ordering::Equal | Ordering::Greater => match node.right {
+                Ordering::Equal | Ordering::Greater => /*@ { proof {
+                        if node.right.is_some() {
+                            let m = inorder(node.left) + seq![(node.key, node.value)];
+                            assert(nseq(*node) =~= m + inorder(node.right));
+                            lemma_prefix_not_above(c, *node, *key);
+                            lemma_no_cat(c, pre, m, *key);
+                            assert(s =~= (pre + m) + inorder(node.right) + post);
+                            assert(inorder(node.right) =~= nseq(*node.right.unwrap()));
+                            pre = pre + m;
+                        }
+                    } @*/ match node.right {
                     Some(ref right) => node = right,
                     None => break,
-                },
+                } /*@ } @*/,
             }
         }
+        //@ proof {
+        //@     lemma_sorted_sub(c, pre, nseq(*node), post);
+        //@     if ord(c, *key, node.key) == Ordering::Less {
+        //@         let i = pre.len() as int;
+        //@         assert(nseq(*node) =~= seq![(node.key, node.value)] + inorder(node.right));
+        //@         assert(s[i] == (node.key, node.value));
+        //@         assert forall|j: int| 0 <= j < i implies ord(c, *key, #[trigger] s[j].0) != Ordering::Less by { assert(s[j] == pre[j]); }
+        //@         assert(succ_at(c, s, *key, i));
+        //@     } else {
+        //@         let m = inorder(node.left) + seq![(node.key, node.value)];
+        //@         assert(nseq(*node) =~= m);
+        //@         lemma_prefix_not_above(c, *node, *key);
+        //@         lemma_no_cat(c, pre, m, *key);
+        //@         let i = (pre + m).len() as int;
+        //@         assert(s =~= (pre + m) + post);
+        //@         if post.len() > 0 {
+        //@             assert(s[i] == post[0]);
+        //@             assert forall|j: int| 0 <= j < i implies ord(c, *key, #[trigger] s[j].0) != Ordering::Less by { assert(s[j] == (pre + m)[j]); }
+        //@             assert(succ_at(c, s, *key, i));
+        //@         } else {
+        //@             assert(s =~= pre + m);
+        //@         }
+        //@     }
+        //@ }
 
         successor
     }
@@ -126,7 +255,9 @@ where
 
         let mut predecessor: Option<(&K, &V)> = None;
 
-        loop {
+        loop
+            //@ decreases nseq(*node).len()
+        {
             match (self.comparator)(key, &node.key) {
                 Ordering::Equal | Ordering::Less => match node.left {
                     Some(ref left) => node = left,
@@ -218,7 +349,9 @@ where
             Some(ref root) => {
                 let mut node = root;
 
-                while let Some(ref left) = node.left {
+                while let Some(ref left) = node.left
+                    //@ decreases nseq(**node).len()
+                {
                     node = left
                 }
                 Some(node)
@@ -232,7 +365,9 @@ where
             Some(ref root) => {
                 let mut node = root;
 
-                while let Some(ref right) = node.right {
+                while let Some(ref right) = node.right
+                    //@ decreases nseq(**node).len()
+                {
                     node = right
                 }
                 Some(node)
@@ -275,7 +410,9 @@ impl<K, V> IntoIter<K, V> {
             Some(cur) => cur,
             None => return None,
         };
-        loop {
+        loop
+            //@ decreases inorder(cur.left).len()
+        {
             match cur.pop_left() {
                 Some(node) => {
                     let mut node = node;
@@ -307,7 +444,9 @@ impl<K, V> IntoIter<K, V> {
             Some(cur) => cur,
             None => return None,
         };
-        loop {
+        loop
+            //@ decreases inorder(cur.right).len()
+        {
             match cur.pop_right() {
                 Some(node) => {
                     let mut node = node;
@@ -336,9 +475,25 @@ impl<K, V> IntoIter<K, V> {
 fn splay<K, V, C>(key: &K, node: &mut Box<Node<K, V>>, comparator: &C)
 where
     C: Fn(&K, &K) -> Ordering,
+    //@ requires
+    //@     cmp_callable(*comparator),
+    //@     sorted(*comparator, nseq(**old(node))) ==> cmp_laws(*comparator),
+    //@ ensures
+    //@     // (a) the in-order sequence of (key, value) pairs is untouched
+    //@     nseq(**final(node)) == nseq(**old(node)),
+    //@     // (b) on a sorted tree the new root splits the tree around `key`
+    //@     sorted(*comparator, nseq(**old(node))) ==> all_lt(*comparator, inorder(final(node).left), *key),
+    //@     sorted(*comparator, nseq(**old(node))) ==> all_gt(*comparator, inorder(final(node).right), *key),
 {
     let mut newleft = None;
     let mut newright = None;
+    //@ let ghost c = *comparator;
+    //@ let ghost s0 = nseq(**node);
+    //@ let ghost srt = sorted(c, s0);
+    //@ let ghost mut lpre: Seq<(K, V)> = Seq::empty();
+    //@ let ghost mut rpost: Seq<(K, V)> = Seq::empty();
+    //@ #[verifier::prophetic] let ghost mut lfin: Option<Box<Node<K, V>>> = None;
+    //@ #[verifier::prophetic] let ghost mut rfin: Option<Box<Node<K, V>>> = None;
 
     // Eplicitly grab a new scope so the loans on newleft/newright are
     // terminated before we move out of them.
@@ -346,17 +501,39 @@ where
         // Yes, these are backwards, that's intentional.
         let mut l = &mut newright;
         let mut r = &mut newleft;
+        //@ proof { lfin = *final(l); rfin = *final(r); }
 
-        loop {
+        loop
+            //@ invariant
+            //@     cmp_callable(c), c == *comparator, srt ==> cmp_laws(c), srt == sorted(c, s0),
+            //@     s0 == lpre + nseq(**node) + rpost,
+            //@     inorder(lfin) == lpre + inorder(*final(l)),
+            //@     inorder(rfin) == inorder(*final(r)) + rpost,
+            //@     (*l).is_none(),
+            //@     (*r).is_none(),
+            //@     srt ==> all_lt(c, lpre, *key) && all_gt(c, rpost, *key),
+            //@ ensures
+            //@     srt ==> all_lt(c, inorder(node.left), *key) && all_gt(c, inorder(node.right), *key),
+            //@ decreases nseq(**node).len()
+        {
+            //@ proof { if srt { lemma_sorted_sub(c, lpre, nseq(**node), rpost); } }
             match comparator(key, &node.key) {
                 // Found it, yay!
-                Ordering::Equal => break,
+                Ordering::Equal => /*@ { proof { if srt { lemma_split(c, **node, *key); } } @*/ break /*@ } @*/,
 
                 Ordering::Less => {
+                    //@ let ghost n0 = **node;
                     let mut left = match node.pop_left() {
                         Some(left) => left,
-                        None => break,
+                        None => /*@ { proof { if srt { lemma_split(c, **node, *key); } } @*/ break /*@ } @*/,
                     };
+                    //@ let ghost l0 = *left;
+                    //@ proof {
+                    //@     assert(inorder(n0.left) =~= nseq(l0));
+                    //@     assert(nseq(**node) =~= seq![(n0.key, n0.value)] + inorder(n0.right));
+                    //@     assert(nseq(n0) =~= nseq(l0) + nseq(**node));
+                    //@     if srt { lemma_sorted_2(c, nseq(l0), nseq(**node)); }
+                    //@ }
                     // rotate this node right if necessary
                     if comparator(key, &left.key) == Ordering::Less {
                         // A bit odd, but avoids drop glue
@@ -366,11 +543,31 @@ where
                         match mem::replace(&mut node.left, none) {
                             Some(l) => {
                                 left = l;
+                                //@ proof {
+                                //@     assert(inorder(l0.left) =~= nseq(*left));
+                                //@     assert(node.left.is_none());
+                                //@     assert(nseq(**node) =~= seq![(l0.key, l0.value)] + (inorder(l0.right) + seq![(n0.key, n0.value)] + inorder(n0.right)));
+                                //@     assert(nseq(n0) =~= nseq(*left) + nseq(**node));
+                                //@     if srt { lemma_sorted_2(c, nseq(*left), nseq(**node)); }
+                                //@ }
                             }
-                            None => break,
+                            None => /*@ { proof { assert(inorder(l0.left) =~= Seq::<(K, V)>::empty()); assert(nseq(**node) =~= seq![(l0.key, l0.value)] + (inorder(l0.right) + seq![(n0.key, n0.value)] + inorder(n0.right))); assert(nseq(n0) =~= nseq(**node)); if srt { lemma_split(c, **node, *key); } } @*/ break /*@ } @*/,
                         }
                     }
 
+                    //@ proof {
+                    //@     assert(node.left.is_none());
+                    //@     assert(nseq(n0) =~= nseq(*left) + nseq(**node));
+                    //@     assert(s0 =~= lpre + nseq(*left) + (nseq(**node) + rpost));
+                    //@     assert(inorder(Some(*node)) =~= nseq(**node));
+                    //@     if srt {
+                    //@         // key is below the head of what moves to the right tree
+                    //@         assert(nseq(**node)[0] == (node.key, node.value));
+                    //@         lemma_all_gt_from_head(c, nseq(**node), *key);
+                    //@         lemma_all_cat(c, nseq(**node), rpost, *key);
+                    //@     }
+                    //@     rpost = nseq(**node) + rpost;
+                    //@ }
                     *r = Some(mem::replace(node, left));
                     let tmp = r;
                     r = &mut tmp.as_mut().unwrap().left;
@@ -379,10 +576,18 @@ where
                 // If you look closely, you may have seen some similar code
                 // before
                 Ordering::Greater => {
+                    //@ let ghost n0 = **node;
                     let mut right = match node.pop_right() {
                         Some(right) => right,
-                        None => break,
+                        None => /*@ { proof { if srt { lemma_split(c, **node, *key); } } @*/ break /*@ } @*/,
                     };
+                    //@ let ghost r0 = *right;
+                    //@ proof {
+                    //@     assert(inorder(n0.right) =~= nseq(r0));
+                    //@     assert(nseq(**node) =~= inorder(n0.left) + seq![(n0.key, n0.value)]);
+                    //@     assert(nseq(n0) =~= nseq(**node) + nseq(r0));
+                    //@     if srt { lemma_sorted_2(c, nseq(**node), nseq(r0)); }
+                    //@ }
 
                     if comparator(key, &right.key) == Ordering::Greater {
                         mem::swap(&mut node.right, &mut right.left);
@@ -391,10 +596,30 @@ where
                         match mem::replace(&mut node.right, none) {
                             Some(r) => {
                                 right = r;
+                                //@ proof {
+                                //@     assert(inorder(r0.right) =~= nseq(*right));
+                                //@     assert(node.right.is_none());
+                                //@     assert(nseq(**node) =~= (inorder(n0.left) + seq![(n0.key, n0.value)] + inorder(r0.left)) + seq![(r0.key, r0.value)]);
+                                //@     assert(nseq(n0) =~= nseq(**node) + nseq(*right));
+                                //@     if srt { lemma_sorted_2(c, nseq(**node), nseq(*right)); }
+                                //@ }
                             }
-                            None => break,
+                            None => /*@ { proof { assert(inorder(r0.right) =~= Seq::<(K, V)>::empty()); assert(nseq(**node) =~= (inorder(n0.left) + seq![(n0.key, n0.value)] + inorder(r0.left)) + seq![(r0.key, r0.value)]); assert(nseq(n0) =~= nseq(**node)); if srt { lemma_split(c, **node, *key); } } @*/ break /*@ } @*/,
                         }
                     }
+                    //@ proof {
+                    //@     assert(node.right.is_none());
+                    //@     assert(nseq(n0) =~= nseq(**node) + nseq(*right));
+                    //@     assert(s0 =~= (lpre + nseq(**node)) + nseq(*right) + rpost);
+                    //@     assert(inorder(Some(*node)) =~= nseq(**node));
+                    //@     if srt {
+                    //@         let m = nseq(**node);
+                    //@         assert(m[m.len() - 1] == (node.key, node.value));
+                    //@         lemma_all_lt_from_last(c, m, *key);
+                    //@         lemma_all_cat(c, lpre, m, *key);
+                    //@     }
+                    //@     lpre = lpre + nseq(**node);
+                    //@ }
                     *l = Some(mem::replace(node, right));
                     let tmp = l;
                     l = &mut tmp.as_mut().unwrap().right;
@@ -405,6 +630,12 @@ where
         mem::swap(l, &mut node.left);
         mem::swap(r, &mut node.right);
     }
+    //@ proof {
+    //@     if srt {
+    //@         lemma_all_cat(c, lpre, inorder(newright), *key);
+    //@         lemma_all_cat(c, inorder(newleft), rpost, *key);
+    //@     }
+    //@ }
 
     node.left = newright;
     node.right = newleft;
